@@ -205,3 +205,24 @@ reg("C04", [M("C04", "len", "rr_roundtrip", _RR_BOUNDS, _RR_FUNCS)], _RR_ASSUME 
     "this obligation decides RDLENGTH == RDATA bytes written and len() == bytes written for every record type"])
 reg("C10", [M("C10", "encdec", "rr_roundtrip", _RR_BOUNDS, _RR_FUNCS)], _RR_ASSUME + [
     "NSAP is checked in the library's documented interpretation (20-byte ATM format); ISDN requires both strings (struct has no optional sa)"])
+
+_PKT_FUNCS = ["Packet::{build_bytes_vec,build_bytes_vec_compressed,write_to,write_compressed_to,write_header,parse,parse_section}",
+              "Header::{write_to,get_flags,opt_rr,parse,extract_info_from_opt_rr}", "OPT::{encode_ttl,extract_rcode_from_ttl,parse,write_to}",
+              "<Question|ResourceRecord|RData|typed RDATA as WireFormat>::{write_to,write_compressed_to,parse,len}",
+              "Name::{plain_append,compress_append,parse}", "HashMap entry API (model)", "io::Cursor<Vec<u8>> Write+Seek (model)"]
+_PKT_BOUNDS = ("packet scenarios (9 quick / 13 thorough): 0-2 questions, 0-3 records per section over NS/PTR/CNAME/MX/SRV/SOA/MINFO/A/TXT "
+               "(+RP/AFSDB/RT/KX/NAPTR/RRSIG/NSEC/SVCB/IPSECKEY/HINFO/CAA/NULL/AAAA thorough), names built from 4 shared symbolic labels "
+               "(equal names, subdomains, unrelated), OPT absent/empty/with options; id, flag bits, TTLs, cache-flush/unicast bits, "
+               "all integer fields and label bytes symbolic; header scenario: 5 named opcodes x 12 named rcodes x symbolic flags")
+_PKT_ASSUME = [
+    "section sizes and name shapes are concrete per scenario (the section loop itself is a plain for-loop over the Vec)",
+    "an rcode > 15 without an OPT record is excluded (documented API requirement of Packet::rcode_mut)",
+    "the envelope walker (mirsym/specs/packet_rt.py walk_plain) is written from RFC 1035 4.1, independent of the code",
+]
+reg("C02", [M("C02", "packet", "packet_rt", _PKT_BOUNDS, _PKT_FUNCS)], _PKT_ASSUME)
+reg("C03", [M("C03", "packet", "packet_rt", _PKT_BOUNDS, _PKT_FUNCS)], _PKT_ASSUME + [
+    "messages beyond offset 16383 are NOT covered by this obligation (see C03.far)"])
+reg("C04", [M("C04", "frame", "packet_rt", _PKT_BOUNDS, _PKT_FUNCS)], _PKT_ASSUME)
+reg("C09", [M("C09", "wire", "packet_rt", _PKT_BOUNDS, _PKT_FUNCS)], _PKT_ASSUME + [
+    "C09.wire: the walker finds the OPT pseudo-record (root owner = 1 name byte, TYPE 41, RDLENGTH) counted once in ARCOUNT; "
+    "field placement inside the OPT record is decided by C02.rdata/C10 (OPT type) and the TTL layout by the Kani harnesses"])
